@@ -203,7 +203,7 @@ func (o PkgObj) expectedObject(templated bool, c PkgCtx, pkgManifestName string)
 	md := map[string]any{
 		"name": o.Name,
 		"labels": map[string]any{
-			"app": "pkg",
+			"app":                           "pkg",
 			"package-operator.run/package":  pkgManifestName,
 			"package-operator.run/instance": c.PkgName,
 		},
